@@ -1351,4 +1351,52 @@ theorem eval_tree_pointwise (chunk : List Col) (n : Nat) (hwf : ChunkWF chunk n)
       rw [h1] at e1; simp only [KOut.map] at e1
       rw [← e1]; rfl
 
+/-! ## LIKE -/
+
+theorem matchT_nl (ts : List LTok) (xs : List Char) (h : ∀ c ∈ xs, c ≠ '\n') :
+    matchT false ts xs = matchT true ts xs := by
+  fun_induction matchT false ts xs <;> simp_all [matchT]
+  rename_i x _ _ _
+  have : (x != '\n') = true := by simp [h.1]
+  simp [this]
+
+theorem likeToks_no_dot (p : List Char) (h : '.' ∉ p) : likeImplToks p = likeSpecToks p := by
+  induction p with
+  | nil => rfl
+  | cons c cs ih =>
+    simp only [likeImplToks, likeSpecToks, List.map_cons] at ih ⊢
+    have hc : c ≠ '.' := fun e => h (by simp [e])
+    rw [ih (fun hm => h (by simp [hm]))]
+    simp [hc]
+
+/-- LIKE agrees with SQL for a pattern without `.` on strings without line feeds. -/
+theorem like_dotfree_partial (p s : String) (hp : '.' ∉ p.toList) (hs : ∀ c ∈ s.toList, c ≠ '\n') :
+    likeImpl p s = likeSpec p s := by
+  simp only [likeImpl, likeSpec, likeToks_no_dot p.toList hp]
+  exact matchT_nl _ _ hs
+
+/-- Full statement for LIKE (does NOT hold): the kernel decides SQL LIKE on every non-NULL row. -/
+def LikePointwise : Prop := ∀ (p : String) (a : Arr String), likePanics p.toList = false →
+  (likeK p a).map vals = .ok ((vals a).map (Option.map fun s => likeSpec p s))
+
+theorem like_witness : likeImpl "a.c" "abc" = true ∧ likeSpec "a.c" "abc" = false := by
+  constructor <;> simp [likeImpl, likeSpec, likeImplToks, likeSpecToks, matchT]
+
+theorem like_pointwise_unsound : ¬ LikePointwise := by
+  intro h
+  have := h "a.c" [⟨true, "abc"⟩] (by simp [likePanics])
+  simp [likeK, likePanics, clearNull, vals, Slot.val, KOut.map, like_witness.1, like_witness.2] at this
+
+theorem like_newline_witness : likeImpl "a_b" "a\nb" = false ∧ likeSpec "a_b" "a\nb" = true := by
+  constructor <;> simp [likeImpl, likeSpec, likeImplToks, likeSpecToks, matchT]
+
+theorem like_invalid_regex_panics (a : Arr String) : likeK "a(" a = .panic := by
+  simp [likeK, likePanics]
+
+/-- LIKE under the forced hypothesis (the tag computation): every valid row's string is decided
+alike by the translated regex and by SQL LIKE, and the pattern compiles. -/
+theorem like_pointwise_partial (p : String) (a : Arr String) (h : likeTags p a = []) :
+    (Col.like p (.str a)).map Col.abs
+      = .ok (.bool ((vals a).map (Option.map fun s => likeSpec p s))) := like_abs p a h
+
 end RlModel
